@@ -325,7 +325,7 @@ func runC06(w *mc.Worker) {
 // c06Spellings: portions written with unusual but grammatical spellings (leading zeros,
 // trailing fractional zeros, spaces), split against `remaining`, both sides.
 func c06Spellings(w *mc.Worker, totals []*big.Int) {
-	texts := []string{"0.25%", "0.10%", "01.5%", "0.017%", "50.0%", "2.50%", "025%", "007%", "1/04", "010/020", "1 / 8", "00.5%", "100.00%", "0.0%", "09%", "1/010"}
+	texts := []string{"0.25%", "0.10%", "01.5%", "0.017%", "50.0%", "2.50%", "025%", "007%", "1/04", "010/020", "1 / 8", "00.5%", "100.00%", "0.0%", "09%", "1/010", "0.00000000000000001%", "1/9223372036854775808", "1/10000000000000000000", "9223372036854775807/9223372036854775808"}
 	w.Stage("spellings", fmt.Sprintf("%d unusual portion spellings (leading zeros, trailing fractional zeros, spaces) x {literal, variable} x {source, destination} x totals", len(texts)), func() {
 		w.Outer("spellings/text", 0, func(o *mc.Explorer) {
 			txt := texts[o.Choose(len(texts))]
